@@ -30,8 +30,9 @@ def _(eng, ci, a, dt):
 
 @icp('locale::get_default_locale', 'fn get_default_locale')
 def _(eng, ci, a, dt):
-    eng.assumptions.add('intercept locale::get_default_locale: opaque &Locale')
-    return Ref([Opaque('locale')], 0)
+    eng.assumptions.add('intercept locale::get_default_locale: the hand-built en Locale of st::locale_with')
+    from .rtm import _locale_en
+    return Ref([_locale_en(eng)], 0)
 
 
 @icp('language::get_default_language', 'fn get_default_language')
@@ -61,6 +62,32 @@ def _(eng, ci, a, dt):
 # ----------------------------------------------------------------------------- bitcode on the diff queue: identity
 # `flush_send_queue` / `apply_external_diffs` serialise the queue with bitcode.  The serialisation itself is outside
 # the claim (DESIGN 3.3): encode returns a byte vector that stands for the queue, decode gives the queue back.
+
+@icp('number_format::to_precision_str', 'fn to_precision_str')
+def _(eng, ci, a, dt):
+    """float -> shortest decimal text (format!("{:.*e}") + ryu): exact for concrete values whose text Python's repr
+    agrees on (plain decimals); anything else is unsupported"""
+    from .mcore import mkstr
+    v, prec = a[0], a[1]
+    if is_sym(v) or is_sym(prec):
+        raise Unsupported('to_precision_str of a symbolic number')
+    v = float(v)
+    import math
+    if math.isinf(v):
+        return mkstr('inf')
+    if math.isnan(v):
+        return mkstr('NaN')
+    parsed = float('%.*e' % (max(int(prec) - 1, 0), v))
+    if parsed != 0 and not (1e-5 <= abs(parsed) < 1e16):
+        raise Unsupported('to_precision_str outside the plain-decimal window')
+    text = repr(parsed)
+    if 'e' in text or 'E' in text:
+        raise Unsupported('to_precision_str: exponent form')
+    if text.endswith('.0'):
+        text = text[:-2]
+    eng.assumptions.add('intercept number_format::to_precision_str: exact shortest-decimal text of concrete plain decimals')
+    return mkstr(text)
+
 
 def install(eng):
     eng.crate_intercepts = ICP
